@@ -37,6 +37,16 @@ def handlePipe (toks : List String) : String :=
       match parseNat? (q.mode.drop 4).toString with
       | some n => render q.canon (runPar q.src q.steps n)
       | none => "BAD-OP"
+    -- `collect()` is the sequential collect
+    else if q.mode == "collect" then render q.canon (runSeq q.src q.steps)
+    -- `collect_par(None, None)`: the engine picks the partition count (planner suggestion / 2 x cores); by
+    -- `C01_program` every count gives the sequential answer, which is what the model answers
+    else if q.mode == "parauto" then render q.canon (runSeq q.src q.steps)
+    -- `collect_par(Some(t), Some(n))`: the thread count only sizes the rayon pool; partitions as in `par:n`
+    else if q.mode.startsWith "part:" then
+      match ((q.mode.drop 5).toString.splitOn ":").map parseNat? with
+      | [some _, some n] => render q.canon (runPar q.src q.steps n)
+      | _ => "BAD-OP"
     else "BAD-OP"
 
 /-- `PIPEF per=<n> mode=… canon=… src … ; steps`: the same program over a streamed file source -/
